@@ -1,6 +1,7 @@
 import Rbql.Model.Basic
 import Rbql.Model.Csv
 import Rbql.Model.ReaderPy
+import Rbql.Model.ReaderJs
 import Driver.Codec
 open Rbql Driver
 
@@ -17,8 +18,24 @@ def encWarn : ReadWarn → String
   | .defective l => s!"defective:{l}"
   | .fields a b c d => s!"fields:{a}:{b}:{c}:{d}"
 
+def warnRank : ReadWarn → Nat
+  | .bom => 0 | .defective _ => 1 | .fields .. => 2
+
 def encWarns (ws : List ReadWarn) : String :=
+  let ws := (ws.filter (warnRank · == 0)) ++ (ws.filter (warnRank · == 1)) ++ (ws.filter (warnRank · == 2))
   if ws.isEmpty then "~" else ",".intercalate (ws.map encWarn)
+
+def mkCfg (pol enc chunk d comment : String) : RCfg :=
+  { chunk := chunk.toNat!, delim := decStr d, policy := decPolicy pol,
+    comment := if comment == "~" then none else some (decStr comment), enc := decEnc enc }
+
+def decMod (m : String) : Option Bool :=
+  match m with | "h" => some true | "N" => some false | _ => none
+
+def encRead (r : Except ReadErr ReadResult) : String :=
+  match r with
+  | .error (.rfcQuote nr nl) => s!"err rfc {nr} {nl}"
+  | .ok r => s!"ok {encOptList r.header} {encTable r.records} {encWarns r.warnings}"
 
 def step (line : String) : String :=
   match line.splitOn " " with
@@ -34,12 +51,33 @@ def step (line : String) : String :=
   | ["unquote", py, f] => encStr (unquoteField (decBool py) (decStr f))
   | ["lines", s] => encList (linesSpec (decStr s))
   | ["readpy", pol, enc, hdr, modi, chunk, d, comment, pieces] =>
-    let c : RCfg := { chunk := chunk.toNat!, delim := decStr d, policy := decPolicy pol,
-                      comment := if comment == "~" then none else some (decStr comment), enc := decEnc enc }
-    let m := match modi with | "h" => some true | "N" => some false | _ => none
-    match readAll c (decBool hdr) m (decList pieces) with
-    | .error (.rfcQuote nr nl) => s!"err rfc {nr} {nl}"
-    | .ok r => s!"ok {encOptList r.header} {encTable r.records} {encWarns r.warnings}"
+    encRead (readAll (mkCfg pol enc chunk d comment) (decBool hdr) (decMod modi) (decList pieces))
+  | ["readpyall", pol, enc, hdr, modi, d, comment, text, _bytes] =>
+    -- the model reads the text whole; chunk independence is a theorem (C12)
+    let t := decStr text
+    let c := mkCfg pol enc (toString (t.length + 1)) d comment
+    encRead (readAll c (decBool hdr) (decMod modi) (if t.isEmpty then [] else [t]))
+  | ["readjs", pol, enc, hdr, modi, d, comment, pieces] =>
+    let c := mkCfg pol enc "0" d comment
+    encRead (jsResult (jsStream c (decList pieces)) (decBool hdr) (decMod modi))
+  | ["readjsfile", pol, enc, hdr, modi, d, comment, text] =>
+    let c := mkCfg pol enc "0" d comment
+    encRead (jsResult (jsBulk c (decStr text)) (decBool hdr) (decMod modi))
+  | ["readjsbulk", pol, enc, hdr, modi, d, comment, text] =>
+    let c := mkCfg pol enc "0" d comment
+    encRead (jsResult (jsBulk c (decStr text)) (decBool hdr) (decMod modi))
+  | ["readboth", pol, enc, hdr, modi, d, comment, text] =>
+    -- one file, both readers: Python (through TextIOWrapper) and JS must deliver the same result
+    let t := decStr text
+    let tp := univNewlines t
+    let cp := mkCfg pol enc (toString (tp.length + 1)) d comment
+    let rp := encRead (readAll cp (decBool hdr) (decMod modi) (if tp.isEmpty then [] else [tp]))
+    let rj := encRead (jsResult (jsStream (mkCfg pol enc "0" d comment) (if t.isEmpty then [] else [t])) (decBool hdr) (decMod modi))
+    if rp == rj then rp else s!"MODELS-DIFFER py=[{rp}] js=[{rj}]"
+  | ["readjsall", pol, enc, hdr, modi, d, comment, text, _bytes] =>
+    -- the model reads in bulk; stream = bulk for every partition is a theorem (C20)
+    let c := mkCfg pol enc "0" d comment
+    encRead (jsResult (jsBulk c (decStr text)) (decBool hdr) (decMod modi))
   | _ => "bad-op"
 
 partial def loop (h : IO.FS.Stream) (out : IO.FS.Stream) : IO Unit := do
